@@ -1697,7 +1697,11 @@ public:
 	 **/
 	if (!lhs_as.is_bottom() && !rhs_as.is_bottom()) {
 	  allocation_sites inter = lhs_as & rhs_as;
-	  if (inter.is_bottom()) {
+	  // The allocation sites say nothing about NULL: two
+	  // references that may both be null can be equal.
+	  if (inter.is_bottom() &&
+	      (is_null_ref(ref_cst.lhs()).is_false() ||
+	       is_null_ref(ref_cst.rhs()).is_false())) {
 	    // if they do not have any common allocation site then
 	    // they cannot be the same address.
 	    set_to_bottom();
@@ -2062,7 +2066,11 @@ public:
           // -- See note about soundness in ref_asume.
           if (!op1_as.is_bottom() && !op2_as.is_bottom()) {
             allocation_sites inter = op1_as & op2_as;
-            if (inter.is_bottom()) {
+            // The allocation sites say nothing about NULL: two
+            // references that may both be null can be equal.
+            if (inter.is_bottom() &&
+                (is_null_ref(rhs.lhs()).is_false() ||
+                 is_null_ref(rhs.rhs()).is_false())) {
               // if they do not have any common allocation site then
               // they cannot be the same address.
               if (rhs.is_equality()) {
